@@ -163,9 +163,18 @@ def run(ctx):
         distinct.add(re.sub(r"[0-9.]+|'[^']*'", "#", o["expr"]))
         if len(samples) < 3 and len(o["expr"]) > 6:
             samples.append(dict(expr=o["expr"], fam=o["fam"]))
+    # A program that differs from Compile(ast) while every observable agrees (results, data-tree requests, all
+    # renderings, every step of the trace under the instructions' own semantics) is no violation of any listed
+    # property (C03 compares the renderings with each other): it is counted, not reported.
+    other_fail_ids = {f["id"] for f in fails if f["site"] != "compile"}
+    shape_only = {o["id"] for o in outcomes if o["mism"] and all(m["kind"] == "prog" for m in o["mism"]) and o["id"] not in other_fail_ids}
+    if shape_only:
+        log(f"note: {len(shape_only)} machines differ from the specification's program in shape only (same results, requests and traces)")
     for f in fails:
         sig = fail_sig(f)
         mine = False
+        if f["site"] == "compile" and f["id"] in shape_only:
+            continue
         if prop == "C01":
             mine = (f["site"] == "step" and f["instr"] in VALUE_INSTR | {"eq"} and not (f["instr"] == "eq" and f["inPred"])) \
                 or (f["site"] == "end" and f["what"] in ("end:value", "end:denotation", "end:no-value", "end:unexpected-error"))
@@ -189,6 +198,8 @@ def run(ctx):
     for o in outcomes:
         for m in o["mism"]:
             if m["kind"] not in KINDS:
+                continue
+            if m["kind"] == "prog" and o["id"] in shape_only:
                 continue
             explained = [f for f in by_id.get(o["id"], []) if (f.get("failAt", 0) > 0) == m["kind"].startswith("fault")]
             if explained and not m["kind"].startswith("variant"):
@@ -214,7 +225,7 @@ def run(ctx):
         totality=tot,
         evaluations=nvec + (tot["builds"] if tot else 0), distinct_nontrivial=len(distinct),
         rule="vectors = all ASTs of the listed families (XPathSets.tla) plus TLC-sampled deeper ASTs; distinct = expression shapes after erasing literals",
-        samples=samples, families=fams, random_vectors=nrand, listings_outside_vocabulary=unknown_listings, trace_events=events, repo_expressions=nh,
+        samples=samples, families=fams, random_vectors=nrand, listings_outside_vocabulary=unknown_listings, program_shape_only=len(shape_only), trace_events=events, repo_expressions=nh,
         exhaustive=True,
         explanation="TLC explored every AST of the families on the machine spec (states/transitions), generated one vector per AST; "
                     "every vector was replayed on the real compiler and machine and every run's per-instruction trace validated by XPathTrace")
